@@ -30,7 +30,20 @@ FILTER_NAMES = [
 ]
 
 
+# share of the generated instances that are "wide": 8-14 jobs on 8-13 machines (two-digit ids,
+# ~100 operations).  A property module that cannot afford such cases sets this to 0.
+WIDE_RATE = 0.03
+_DUR_MODE = ["normal"]
+
+
 def _dur(rng, small):
+    mode = _DUR_MODE[0]
+    if mode == "equal":
+        return 3
+    if mode == "hundreds":
+        return rng.randint(100, 999)
+    if mode == "thousands":
+        return rng.choice([1000, 1000, 2500, rng.randint(1000, 5000)])
     return rng.randint(1, 4) if small else rng.randint(1, 60)
 
 
@@ -40,6 +53,17 @@ def gen_instance(rng: random.Random, cls=None, max_jobs=4, max_machines=4, max_o
     max_ops bounds the total number of operations (for exhaustive trees)."""
     if cls is None:
         cls = rng.choice(INSTANCE_CLASSES)
+    _DUR_MODE[0] = "normal"
+    if cls in ("classic", "irregular", "recirc", "flexible", "gap", "zero", "zero_nf"):
+        # duration scales: everything equal (ties everywhere), three- and four-digit values
+        _DUR_MODE[0] = rng.choice(["normal"] * 9 + ["equal", "hundreds", "thousands"])
+        if max_ops is None and WIDE_RATE and rng.random() < WIDE_RATE:
+            max_jobs, max_machines = rng.choice([8, 10, 12, 13, 14]), rng.choice([8, 10, 11, 12, 13])
+            cls_w = True
+        else:
+            cls_w = False
+    else:
+        cls_w = False
     small = rng.random() < 0.7
     base = cls
     zero = False
@@ -67,6 +91,8 @@ def gen_instance(rng: random.Random, cls=None, max_jobs=4, max_machines=4, max_o
         if base in ("classic",):
             nj = rng.randint(2, max(2, max_jobs))
             nm = rng.randint(2, max(2, max_machines))
+        if cls_w:
+            nj, nm = max_jobs, max_machines
         durations, machines = [], []
         if base == "gap":
             nm = rng.randint(3, max(3, max_machines))
@@ -129,9 +155,20 @@ def gen_instance(rng: random.Random, cls=None, max_jobs=4, max_machines=4, max_o
             for p in range(len(job)):
                 job[p] = big + rng.randint(0, 120) if rng.random() < 0.7 else rng.randint(1, 60)
     inst["cls"] = cls
+    _DUR_MODE[0] = "normal"
     if max_ops is not None:
         _trim(inst, max_ops)
     return inst
+
+
+def long_instance(rng, n=None):
+    """One job with more than 256 operations (8-bit counters would wrap) next to a short one; two
+    or three machines, so one machine carries more than 100 operations as well."""
+    n = n or rng.choice([257, 260, 300])
+    nm = rng.choice([2, 3])
+    return {"cls": "long",
+            "durations": [[rng.randint(1, 3) for _ in range(n)], [2, 1]],
+            "machines": [[[rng.randrange(nm)] for _ in range(n)], [[nm - 1], [0]]]}
 
 
 def _trim(inst, max_ops):
